@@ -12,6 +12,7 @@ def kindOf : String → Option Kind
 def errName : PErr → String
   | .valueError => "valueError"
   | .indexError => "indexError"
+  | .notImplemented => "notImplemented"
 
 def Val.fltsss? (v : Val) : Option (List (List (List Float))) := v.list? >>= (·.mapM Val.fltss?)
 
@@ -30,13 +31,20 @@ def upOf (v : Val) : Option (Option (Nat → Nat → Float)) :=
 
 def ofFltss (l : List (List Float)) : Val := .list (l.map ofFlts)
 
+/-- observations: a list of rows, or (1-D input) a list of floats -/
+def obsOf (v : Val) : Option (ObsArg Float) :=
+  match v.flts? with
+  | some l => if l.isEmpty then (v.fltss?.map ObsArg.mat) else some (.vec l)
+  | none => v.fltss?.map ObsArg.mat
+
 /-- `C05.ll legacy kind nIds nDim layoutKind payload obs` → score | err -/
 def ll : Op
   | [.bool legacy, .str k, .int nIds, .int nDim, .str lk, pv, obv] => do
     let kind ← kindOf k
     let lay ← layoutOf lk pv
-    let obs ← obv.fltss?
-    match llLayout legacy kind nIds.toNat nDim.toNat lay (matF obs) with
+    let obs ← obsOf obv
+    if obs.view.1 ≠ nIds.toNat then none else
+    match llLayout legacy kind nIds.toNat nDim.toNat lay obs.view.2 with
     | .error e => some [errVal (errName e)]
     | .ok s => some [scoreVal s]
   | _ => none
@@ -48,11 +56,12 @@ def sens : Op
   | [.bool legacy, .str k, .int nIds, .int nDim, .str lk, pv, obv, upv] => do
     let kind ← kindOf k
     let lay ← layoutOf lk pv
-    let obs ← obv.fltss?
+    let obs ← obsOf obv
     let up ← upOf upv
     let n := nIds.toNat
     let nd := nDim.toNat
-    match sensLayout legacy kind n nd lay (matF obs) up with
+    if obs.view.1 ≠ n then none else
+    match sensLayout legacy kind n nd lay obs.view.2 up with
     | .error e => some [errVal (errName e)]
     | .ok s =>
       let nh := kind.nHierParams n nd
@@ -80,36 +89,62 @@ def indiv : Op
     | .ok rows => some [.list (rows.map (fun r => .list (r.map psiVal)))]
   | _ => none
 
+def pairsOf (v : Val) : Option (List (Nat × Nat)) := do
+  let l ← v.list?
+  l.mapM (fun e => match e with
+    | .list [.int p, .int d] => some (p.toNat, d.toNat)
+    | _ => none)
+
+/-- sub-models: `[kind, nDim]` (bare) or `[kind, nDim, nCov, [[p, d], …]]` (covariate-wrapped,
+    stored selection) -/
 def subsOf (v : Val) : Option (List SubModel) := do
   let l ← v.list?
   l.mapM (fun e => match e with
     | .list [.str k, .int nd] => (kindOf k).map (fun kk => ⟨kk, nd.toNat, 0, []⟩)
+    | .list [.str k, .int nd, .int nc, sel] => do
+      let kk ← kindOf k
+      let ps ← pairsOf sel
+      some ⟨kk, nd.toNat, nc.toNat, ps⟩
     | _ => none)
 
-/-- `C05.composed nIds subs params obs up`
+/-- `C05.composed nIds subs params obs cov up`
     → ll (loop), ll (specification), separate: score defined dpsi-rows dtheta,
-      reduced: score defined vector, n_bottom, n_top, n_parameters, n_dim -/
+      reduced: score defined vector, n_bottom, n_top, n_parameters, n_dim, n_covariates -/
 def composed : Op
-  | [.int nIds, sv, pv, obv, upv] => do
+  | [.int nIds, sv, pv, obv, cvv, upv] => do
     let subs ← subsOf sv
     let params ← pv.flts?
     let obs ← obv.fltss?
+    let covs ← cvv.fltss?
     let up ← upOf upv
     let n := nIds.toNat
     if params.length ≠ composedNParams n subs then some [errVal "badLength"] else
     let P := vecF params
     let O := matF obs
-    let sep := composedSens n subs P O up
-    let red := composedReduced n subs P O up
+    let C := matF covs
+    let sep := composedSens n subs P O C up
+    let red := composedReduced n subs P O C up
     let nh := composedNHier n subs
-    some [scoreVal (composedLL n subs P O), scoreVal (composedLLSpec n subs P O),
+    some [scoreVal (composedLL n subs P O C), scoreVal (composedLLSpec n subs P O C),
       scoreVal sep.score, .bool sep.defined,
       ofFltss ((List.range n).map (fun i => sep.cols.map (fun c => c i))), ofFlts sep.dtheta,
       scoreVal red.1, .bool red.2.1, ofFlts red.2.2, .int nh.1, .int nh.2,
-      .int (composedNParams n subs), .int (composedNDim subs)]
+      .int (composedNParams n subs), .int (composedNDim subs), .int (composedNCov subs)]
+  | _ => none
+
+/-- `C05.pointwise kind nIds nDim layoutKind payload obs` → rows of scores | err -/
+def pointwise : Op
+  | [.str k, .int nIds, .int nDim, .str lk, pv, obv] => do
+    let kind ← kindOf k
+    let lay ← layoutOf lk pv
+    let obs ← obv.fltss?
+    match pointwiseLayout kind nIds.toNat nDim.toNat lay (matF obs) with
+    | .error e => some [errVal (errName e)]
+    | .ok rows => some [.list (rows.map (fun r => .list (r.map scoreVal)))]
   | _ => none
 
 def ops : List (String × Op) :=
-  [("C05.ll", ll), ("C05.sens", sens), ("C05.indiv", indiv), ("C05.composed", composed)]
+  [("C05.ll", ll), ("C05.sens", sens), ("C05.indiv", indiv), ("C05.composed", composed),
+   ("C05.pointwise", pointwise)]
 
 end ChiDriver.C05
